@@ -2,8 +2,11 @@
 // Line:  <kind> <op> <slot> <args...>     kinds: mi = Map<int,int>   ds = Dic<String>
 //                                               hi = HashMap<int,int> hs = HashDic<int>
 //                                               si = Set<int>         ss = Set<String>
-// int keys/values decimal, String keys/values hex ("-" = empty).  Only public API observables are printed;
-// hash-container enumerations are sorted before printing, ordered-map enumerations are printed in order.
+// int keys/values decimal, String keys/values hex ("-" = empty).  Public API observables are printed with
+// hash-container enumerations sorted (dump) and ordered-map enumerations in order.  The `raw` op additionally
+// prints the bucket count and the UNSORTED enumeration (foreach order): it ties the model's hash functions,
+// binOf, growth rule and chain order to the code (the plugin's oracle treats a raw-only difference as
+// "model no longer describes the code", not as a failing input of the property).
 #include "common.h"
 #include <asl/Map.h>
 #include <asl/HashMap.h>
@@ -71,6 +74,7 @@ static std::string ordered(M* m, const Toks& t, const K&, const V&)
 	if (op == "clear" && n == 3) { a.clear(); return "ok " + str(a.length()); }
 	if (op == "clone" && n == 4) { m[slot(t[3])] = a.clone(); return "ok " + str(m[slot(t[3])].length()); }
 	if (op == "add" && n == 4) { M other = m[slot(t[3])].clone(); a.add(other); return "ok " + str(a.length()); }
+	if (op == "addself" && n == 3) { a.add(a); return "ok " + str(a.length()); }
 	if (op == "eq" && n == 4) { M& b = m[slot(t[3])]; bool e = a == b, ne = a != b; if (e == ne) return "err eq-ne-inconsistent"; return e ? "1" : "0"; }
 	if (op == "len" && n == 3) { return str(a.length()) + (!a ? " empty" : " nonempty"); }
 	if (op == "keys" && n == 3) {
@@ -114,6 +118,12 @@ static std::string hashed(M* m, const Toks& t, const K&, const V&)
 	if (op == "clone" && n == 4) { m[slot(t[3])] = a.clone(); return "ok " + str(m[slot(t[3])].length()); }
 	if (op == "eq" && n == 4) { M& b = m[slot(t[3])]; bool e = a == b, ne = a != b; if (e == ne) return "err eq-ne-inconsistent"; return e ? "1" : "0"; }
 	if (op == "len" && n == 3) { return str(a.length()); }
+	if (op == "raw" && n == 3) {
+		if (ASL_HMAP_SKIP != 2) return "err ASL_HMAP_SKIP-is-not-2";
+		std::string s = str(a.a.length() - ASL_HMAP_SKIP);
+		foreach2(K& kk, const V& vv, a) s += " " + show(kk) + ":" + show(vv);
+		return s;
+	}
 	if (op == "dump" && n == 3) {
 		std::vector<Ent> out;
 		foreach2(K& kk, const V& vv, a) out.push_back(ent(kk, show(kk) + ":" + show(vv)));
@@ -160,6 +170,13 @@ static std::string sets(S* m, const Toks& t, const K& kk)
 		for (size_t i = 3; i < n; i++) { parse(t[i], k); arr << k; }
 		a = S(arr);
 		return "ok " + str(a.length());
+	}
+	if (op == "addself" && n == 3) { a << a; return "ok " + str(a.length()); }
+	if (op == "raw" && n == 3) {
+		if (ASL_HMAP_SKIP != 2) return "err ASL_HMAP_SKIP-is-not-2";
+		std::string s = str(a.a.length() - ASL_HMAP_SKIP);
+		foreach(const K& x, a) s += " " + show(x);
+		return s;
 	}
 	if (op == "addset" && n == 4) { S other; other << m[slot(t[3])]; a << other; return "ok " + str(a.length()); }
 	if (op == "eq" && n == 4) { S& b = m[slot(t[3])]; bool e = a == b, ne = a != b; if (e == ne) return "err eq-ne-inconsistent"; return e ? "1" : "0"; }
